@@ -493,6 +493,50 @@ let c14 s b =
         | Ok [v] -> Printf.bprintf b " | out %d" (cb v)
         | Ok _ -> Printf.bprintf b " | out arity"))
 
+
+(* ---- C17: the scripting model ------------------------------------------------------- *)
+let err_name = function
+  | ETypeMismatch -> "type-mismatch" | EMissingField -> "missing-field" | EUnknownField -> "unknown-field"
+  | EMissingArg -> "missing-arg" | EExtraArg -> "extra-arg" | ECompareTree -> "compare-tree"
+  | ENoSuchFunction -> "no-such-function" | EVarNotFound -> "var-not-found" | EPropNotFound -> "prop-not-found"
+  | EArith -> "arith" | EOutputType -> "output-type" | EParse -> "parse" | EInternal -> "internal" | EUnsupported -> "?"
+let rec buf_etree b (t : z etree) =
+  match t with
+  | EX -> Buffer.add_string b "X" | EY -> Buffer.add_string b "Y" | EZ -> Buffer.add_string b "Z"
+  | EVar v -> Printf.bprintf b "V%d" (int_of_nat v)
+  | EConst c -> Printf.bprintf b "C%d" (let v = int_of_z c in if v land 0x7fffffff > 0x7f800000 then 0x7fc00000 else v)
+  | EUn (u, a) -> Printf.bprintf b "U%d(" (index_of uops u); buf_etree b a; Buffer.add_char b ')'
+  | EBin (o, l, r) -> Printf.bprintf b "B%d(" (index_of bops o); buf_etree b l; Buffer.add_char b ','; buf_etree b r; Buffer.add_char b ')'
+  | ERemapAxes (t, x, y, z) -> Buffer.add_string b "R("; buf_etree b t; Buffer.add_char b ','; buf_etree b x; Buffer.add_char b ','; buf_etree b y; Buffer.add_char b ','; buf_etree b z; Buffer.add_char b ')'
+  | ERemapAffine (t, m) -> Buffer.add_string b "A("; buf_etree b t; List.iter (fun c -> Printf.bprintf b ";%d" (let v = int_of_z c in if v land 0x7fffffff > 0x7f800000 then 0x7fc00000 else v)) m; Buffer.add_char b ')'
+let c17 s b =
+  (* tokens up to "|R" are the wire expression; then the rotation table *)
+  let wire = Buffer.create 256 in
+  let fin = ref false in
+  while not !fin && not (at_end s) do
+    let t = next_tok s in
+    if t = "|R" then fin := true else begin (if Buffer.length wire > 0 then Buffer.add_char wire ' '); Buffer.add_string wire t end
+  done;
+  let n = if at_end s then 0 else next s in
+  let table = times n (fun () ->
+    let key = times 4 (fun () -> next s) in
+    let m = times 9 (fun () -> next_f32 s) in (key, m)) in
+  let miss = ref false in
+  let rot (v : f32 vec3) (a : f32) : f32 list =
+    let key = [int_of_f32 v.vx; int_of_f32 v.vy; int_of_f32 v.vz; int_of_f32 a] in
+    match List.assoc_opt key table with Some m -> m | None -> miss := true; times 9 (fun () -> fnan) in
+  match run_wire rot (coq_string (Buffer.contents wire)) with
+  | None -> Printf.bprintf b "res wire-parse-error"
+  | Some (_, r) ->
+    (match r with
+     | RErr e -> if !miss || e = EUnsupported then Printf.bprintf b "res ?" else Printf.bprintf b "res err | cls %s" (err_name e)
+     | ROk t -> if !miss then Printf.bprintf b "res ?" else begin Printf.bprintf b "res "; buf_etree b t end)
+let c17src s b =
+  let wire = Stdlib.String.concat " " (Array.to_list (Array.sub s.toks 1 (Array.length s.toks - 1))) in
+  match run_wire (fun _ _ -> []) (coq_string wire) with
+  | None -> Printf.bprintf b "wire-parse-error"
+  | Some (src, _) -> Buffer.add_string b (ocaml_string src)
+
 (* ---- C18: view manipulation (fidget-gui Canvas2 / Canvas3), f32 instance ------------- *)
 let c18 s b =
   let dim = next s in
@@ -659,6 +703,8 @@ let dispatch cmd s b =
   | "c16" -> c16 s b
   | "c19" -> c19 s b
   | "c18" -> c18 s b
+  | "c17" -> c17 s b
+  | "c17src" -> c17src s b
   | "c14" -> c14 s b
   | "c09" -> c09 s b
   | "c08" -> c08 s b
